@@ -267,6 +267,81 @@ def run(chk):
             chk.fail("reuse-differs", "re-used objects give a result different from fresh equal objects", {"order": order})
         chk.count("reuse_rounds")
 
+    # ---- (d) a pool of shared objects used by a random sequence of DIFFERENT jobs (start times, grids, entry points):
+    # every job must give what it gives on freshly constructed equal objects ---------------------------------------------
+    def mk_objs():
+        cc = oqupy.PowerLawSD(alpha=0.1, zeta=1, cutoff=3.0, cutoff_type="exponential", temperature=0.1)
+        bb = oqupy.Bath(O, cc)
+        td = oqupy.TimeDependentSystem(lambda t: H + 0.4 * np.sin(1.3 * t) * SZ, gammas=[lambda t: 0.05 + 0.02 * t * t],
+                                       lindblad_operators=[lambda t: oqupy.operators.sigma("-") + 0.1 * t * SZ])
+        tdf = oqupy.TimeDependentSystemWithField(lambda t, a: H + 0.3 * np.cos(0.7 * t) * SZ + 0.1 * a.real * SX)
+        mfs = oqupy.MeanFieldSystem([tdf], field_eom=lambda t, st, a: -0.1 * a + 0.05 * t + 0.1 * np.trace(st[0] @ SZ))
+        ps = oqupy.ParameterizedSystem(lambda x, y: x * SX + y * SZ, gammas=[lambda x, y: 0.05 + 0.1 * y * y],
+                                       lindblad_operators=[lambda x, y: oqupy.operators.sigma("-") + 0.2 * x * SZ])
+        pt = oqupy.pt_tempo_compute(bb, 0.0, 0.3, parameters=par, progress_type="silent")
+        return {"bath": bb, "td": td, "mfs": mfs, "ps": ps, "pt": pt, "sys": oqupy.System(H), "par": par,
+                "par2": oqupy.TempoParameters(dt=0.05, epsrel=1e-7, dkmax=2)}
+
+    def job_run(name, ob):
+        st = lambda d: np.array(d.states).reshape(-1)
+        if name.startswith("tempo@"):
+            t0 = float(name[6:])
+            return st(oqupy.Tempo(ob["td"], ob["bath"], ob["par"], rho, t0).compute(t0 + 0.3, progress_type="silent"))
+        if name.startswith("tempo-dt2@"):
+            t0 = float(name[10:])
+            return st(oqupy.Tempo(ob["td"], ob["bath"], ob["par2"], rho, t0).compute(t0 + 0.2, progress_type="silent"))
+        if name.startswith("dynamics@"):
+            t0 = float(name[9:])
+            return st(oqupy.compute_dynamics(ob["td"], initial_state=rho, process_tensor=ob["pt"], start_time=t0, progress_type="silent"))
+        if name.startswith("dynamics-nosubdiv@"):
+            t0 = float(name[18:])
+            return st(oqupy.compute_dynamics(ob["td"], initial_state=rho, process_tensor=ob["pt"], start_time=t0, subdiv_limit=None, progress_type="silent"))
+        if name.startswith("correlations@"):
+            t0 = float(name[13:])
+            return np.array(oqupy.compute_correlations(ob["td"], ob["pt"], SZ, SX, times_a=(t0, t0 + 0.3), times_b=t0 + 0.2, time_order="ordered",
+                                                       initial_state=rho, start_time=t0, progress_type="silent")[1]).reshape(-1)
+        if name.startswith("meanfield@"):
+            t0 = float(name[10:])
+            d = oqupy.MeanFieldTempo(ob["mfs"], [ob["bath"]], ob["par"], [rho], 0.2 + 0j, t0).compute(t0 + 0.3, progress_type="silent")
+            return np.append(st(d.system_dynamics[0]), d.fields)
+        if name.startswith("gradient#"):
+            k = int(name[9:])
+            table = np.array([[0.3 + 0.1 * j * (k + 1), 0.2 - 0.03 * j + 0.1 * k] for j in range(6)])
+            g = oqupy.state_gradient(system=ob["ps"], initial_state=rho, target_derivative=SZ.T, process_tensors=[ob["pt"]], parameters=table, progress_type="silent")
+            return np.append(np.array(g["gradient"]).reshape(-1), st(g["dynamics"]))
+        if name == "tempo-plain":
+            return st(oqupy.Tempo(ob["sys"], ob["bath"], ob["par"], rho, 0.0).compute(0.3, progress_type="silent"))
+        raise KeyError(name)
+
+    JOBS = ["tempo@0.0", "tempo@1.5", "tempo@-0.7", "tempo-dt2@0.0", "tempo-dt2@1.5", "dynamics@0.0", "dynamics@1.5", "dynamics@-0.7",
+            "dynamics-nosubdiv@0.0", "dynamics-nosubdiv@1.5", "correlations@0.0", "correlations@1.5", "meanfield@0.0", "meanfield@0.4",
+            "gradient#0", "gradient#1", "tempo-plain"]
+    fresh_results = {}
+    for it in range(5 if thorough else 2):
+        shared = quiet(mk_objs)
+        seq = [rng.choice(JOBS) for _ in range(12 if thorough else 8)]
+        # always include one pair that differs in the start time only
+        fam = rng.choice(["tempo@", "dynamics@", "correlations@", "dynamics-nosubdiv@"])
+        pair = [j for j in JOBS if j.startswith(fam)][:2]
+        rng.shuffle(pair)
+        seq = pair + seq
+        for pos, name in enumerate(seq):
+            info = {"kind": "shared-pool", "sequence": seq[:pos + 1], "job": name}
+            try:
+                got = quiet(job_run, name, shared)
+                if name not in fresh_results:
+                    fresh_results[name] = quiet(job_run, name, quiet(mk_objs))
+            except Exception as ex:
+                chk.fail("reuse-raises", f"job {name} raises {ex!r} on shared objects after {seq[:pos]}", info)
+                continue
+            chk.search_cases += 1
+            chk.count("shared_pool_jobs")
+            want = fresh_results[name]
+            if got.shape != want.shape or not np.allclose(got, want, rtol=0, atol=1e-6, equal_nan=True):
+                dev = np.abs(got - want).max() if got.shape == want.shape else float("nan")
+                chk.fail("reuse-differs", f"job {name} on objects already used by {seq[:pos]} differs from the same job on fresh equal objects by {dev:.2e}", info)
+        chk.case({"kind": "shared-pool", "sequence": seq}, ("pool", tuple(seq)))
+
     vals, errs = run_cases("C20", HEADER, exprs)
     for e in errs:
         chk.disagree("coq evaluation", e)
